@@ -72,8 +72,11 @@ Definition expected_storage : list (string * string * string * string) := [
 Definition row_eqb (a b : string * string * string * string) : bool :=
   let '(a1, a2, a3, a4) := a in let '(b1, b2, b3, b4) := b in
   String.eqb a1 b1 && String.eqb a2 b2 && String.eqb a3 b3 && String.eqb a4 b4.
-Fixpoint rows_eqb (l l' : list (string * string * string * string)) : bool :=
-  match l, l' with [], [] => true | x :: r, y :: r' => row_eqb x y && rows_eqb r r' | _, _ => false end.
+(* the same rows, in any order (moving an impl block or a macro arm is not a change) *)
+Definition count_row (r : string * string * string * string) (l : list (string * string * string * string)) : nat :=
+  List.length (filter (row_eqb r) l).
+Definition rows_eqb (l l' : list (string * string * string * string)) : bool :=
+  Nat.eqb (List.length l) (List.length l') && forallb (fun r => Nat.eqb (count_row r l) (count_row r l')) l.
 (* the rows of one storage class *)
 Definition class_rows (c : string) (l : list (string * string * string * string)) := filter (fun r => String.eqb (fst (fst (fst r))) c) l.
 (* class by class for the classes the model knows (a further storage class added to the source is not the model's business) *)
